@@ -182,7 +182,14 @@ func c01(p *Prog, r *Report) {
 		why := "expected one SetupBaseS and one Seal"
 		if ok {
 			st, sl := s.callTerm(setup[0]), s.callTerm(seal[0])
-			inner := "cat(u8(param:1), param:2, lp16(cat(param:4, make(bin<->(const:31, bin<%>(bin<->(len(param:4), const:1), const:32))))))"
+			// the padded origin is whatever padOriginName(originName) yields (its arithmetic is rule R6 / C20)
+			padded := "call<tokens/type3.padOriginName>(param:4)"
+			if pf := p.Func("~/tokens/type3.padOriginName"); pf != nil {
+				if pt := p.returnTermWith(pf, T("param", "4")); pt != nil {
+					padded = pt.String()
+				}
+			}
+			inner := "cat(u8(param:1), param:2, lp16(" + padded + "))"
 			why = firstNonEmpty(
 				want("suite", arg(st, 0), "param:0.suite"), want("recipient key", arg(st, 2), "param:0.publicKey"), want("info", arg(st, 3), `lit:"TokenRequest"`),
 				want("associated data", arg(sl, 1), aadTerm("param:0", "param:3", "hash<sha256>("+encapKeyEncoding("param:0")+")")),
